@@ -24,7 +24,7 @@ OWN = {
     "C06": {"before-node-ran-without-interrupt", "successor-of-after-node-started", "before-list-not-exact", "after-list-not-exact",
             "rerun-list-not-exact", "nested-interrupt-info-not-exact", "empty-interrupt", "interrupt-info-state-presence",
             "interrupt-info-state-mismatch", "checkpoint-not-written-exactly-once-under-the-id", "checkpoint-written-without-interrupt",
-            "interrupt-while-node-running"},
+            "interrupt-while-node-running", "step-limit-error-hides-a-due-interrupt"},
     "C13": {"error-names-wrong-node-path", "cause-not-unwrappable", "unwrapped-cause-of-another-node", "panic-error-names-wrong-node-path",
             "max-steps-sentinel-not-matchable", "context-error-not-matchable", "panic-escaped-the-run", "run-hangs",
             "node-started-after-cancellation"},
@@ -33,7 +33,7 @@ OWN = {
             "post-handler-not-after-its-node", "successor-started-before-post-handler", "state-access-without-state",
             "state-access-in-unknown-frame", "state-access-blocked-after-callback-panic"},
 }
-SHARED = {"interrupt-while-node-running": {"C05", "C06", "C13"}, "interrupt-info-state-mismatch": {"C05", "C06", "C11"},
+SHARED = {"interrupt-while-node-running": {"C05", "C06", "C13"}, "step-limit-error-hides-a-due-interrupt": {"C06", "C05", "C01"}, "interrupt-info-state-mismatch": {"C05", "C06", "C11"},
           "state-trail-mismatch": {"C05", "C11"}, "rerun-input-not-rebuilt-from-state": {"C05", "C11"},
           "pre-handler-of-node-not-triggered": {"C05", "C11"}, "pre-handler-twice": {"C05", "C11"},
           "state-update-lost-or-state-not-fresh": {"C05", "C11"},
@@ -366,7 +366,7 @@ def c06(tier, repo=None):
     fams = fams + [("if2", consts("pregel", 2, 3, 1, 1, marks=1, fail=True, maxchoice=(3,)), {})]     # errors must not write a checkpoint
     return run_engine_check("C06", tier, model_cfgs=["MC_EinoRun_pregel2.cfg", "MC_EinoRun_nest_after.cfg"] + (["MC_EinoRun_dag3.cfg", "MC_EinoRun_nest_before.cfg"] if tier == "thorough" else []),
                             model_must_fail=["MC_EinoRun_nostartcheck.cfg"],
-                            families=fams, decorate_kw={"noid_frac": 0.12, "state_frac": 0.3, "all_paradigms": True, "storefail_frac": 0.06, "empty_frac": 0.05}, nontrivial=nontrivial, nest_frac=0.12,
+                            families=fams, decorate_kw={"noid_frac": 0.12, "state_frac": 0.3, "all_paradigms": True, "storefail_frac": 0.06, "empty_frac": 0.05, "rmax_frac": 0.15}, nontrivial=nontrivial, nest_frac=0.12,
                             nest_marks=True, limit=limit, repo=repo,
                             assumptions=["'stops before any of its successors starts' is read per the statement: only successors triggered by the after-node are constrained"])
 
